@@ -21,9 +21,9 @@ import (
 // same time (feeder goroutines and bastion streams all fire at once after a restart). Whatever the witness sets up lazily per log on first use
 // is set up by many goroutines at once. Every call must return; the process must still be there afterwards.
 func hostileStorm(s hostileScen, seed int64) error {
-	nlogs, rounds := 8000, 6
+	nlogs, rounds := 4000, 4
 	if s.Data == "storm-small" {
-		nlogs, rounds = 500, 60
+		nlogs, rounds = 400, 30
 	}
 	w := world.New(world.Params{Logs: []string{"l1"}, MaxSize: 1, NBranch: 1, MaxLines: 6, NWitKeys: 2, Seed: seed, RunTag: "storm", Origins: map[string]string{}})
 	key := w.Logs["l1"].Key
